@@ -64,6 +64,17 @@ def msdos_arg_order(facts, rep, rule):
             rep.check(good, rule, "from_msdos-arg-order[%s]" % f.path.split("::")[-1], where(f, t["span"]),
                       "from_msdos(date, time): date is the later of the two consecutive reads",
                       "from_msdos receives (time, date): the DOS time word is read before the date word in the record")
+        # ... and what the entry reports is that value itself: a parser that "repairs" out-of-range words (month 0, hour 25) makes
+        # every re-writer of the entry (append, raw copy) change the recorded timestamp
+        from engine.query import aggregates as _aggs
+        for bi, si, s, flds in _aggs(f, r"types::ZipFileData$"):
+            if "last_modified_time" not in flds:
+                continue
+            v = norm(ex.operand(flds["last_modified_time"], (bi, si)))
+            good = v[0] == "call" and v[1].endswith("DateTime::from_msdos")
+            ok &= good
+            rep.check(good, rule, "timestamp-verbatim[%s]" % f.path.split("::")[-1], where(f, s["span"]), "last_modified_time = from_msdos(date, time), nothing else",
+                      "the parsed timestamp is post-processed (%s): out-of-range DOS words are no longer reported / re-written unchanged" % show(v)[:100])
     return ok
 
 
@@ -152,7 +163,7 @@ def patch_rules(facts, rep, rule="C01-PATCH"):
             if whole[0] == "agg":
                 fields = [(k_, v_) for k_, v_ in whole[3] if k_ in resets]
         for fname, e in fields:
-            after_hdr = se.dominates(hdr[0][0], bi)
+            after_hdr = se.call_dominates_stmt(hdr[0][0], bi)
             if fname == "start":
                 good = after_hdr and any(x[0] == "call" and x[1].endswith("stream_position") for x in walk(e))
             elif fname == "bytes_written":
@@ -500,6 +511,8 @@ def run(ctx, rep):
     from rules.C03 import search_rules
     count_rule(facts, rep, rule="C01-COUNT", only=r"ZipWriter<W>>::write$|MaybeEncrypted|Crc32Reader")
     search_rules(ctx, facts, rep)
+    from rules.shared_count import exact_rule
+    exact_rule(facts, rep)             # reported as C01/C09-EXACT: content is handed to the sink with exact-length primitives (a bare write() drops the tail on a short write)
     # archives with more than 65535 entries / beyond 4 GiB are in C01's quantifier: the end records that make them readable
     from rules.shared_zip64 import eocd_rules
     eocd_rules(ctx, facts, rep, rule="C08-EOCD")
